@@ -2042,9 +2042,17 @@ class IMAPClientCommand:
     def _p_string(self) -> str:
         """A string is either a 'quoted string' or a 'literal string'"""
         try:
-            return self._p_re(_quoted_re)[1:-1]
+            quoted = self._p_re(_quoted_re)[1:-1]
         except NoMatch:
             pass
+        else:
+            # The value of a quoted string is what is between the quotes
+            # with the quoting undone: `\"` is a double quote and `\\` is a
+            # backslash.
+            #
+            if "\\" in quoted:
+                quoted = re.sub(r"\\([\\\"])", r"\1", quoted)
+            return quoted
 
         literal_length = int(self._p_re(_lit_ref_re, group=1))
 
